@@ -199,9 +199,9 @@ func c10Case(c *Ctx) {
 }
 
 func c10Shipped(c *Ctx, which int) {
-	name, list, file := "AgileWords", spg.AgileWords, "/repo/testdata/agwordlist.txt"
+	name, list, file := "AgileWords", spg.AgileWords, repoRoot()+"/testdata/agwordlist.txt"
 	if which == 1 {
-		name, list, file = "AgileSyllables", spg.AgileSyllables, "/repo/testdata/agsyllables.txt"
+		name, list, file = "AgileSyllables", spg.AgileSyllables, repoRoot()+"/testdata/agsyllables.txt"
 	}
 	want := oracle.Normalize(list)
 	before := append([]string(nil), list...)
